@@ -14,7 +14,11 @@ REQUIRED_THEOREMS = ["send_only_with_credit", "sequence_numbers_consecutive_from
                      "wire_latches", "lbad_retransmits_on_the_wire", "lbad_round_completes"]
 RULE = ("cases = closed-loop link partner (sequence advertisement, LCRD A-D, LGOOD per received header after a random "
         "delay, LBAD for a randomly 'corrupted' header followed by ignoring until our LRTY) + protocol layer queue "
-        "timing + source back-pressure + lrty_pending timing + link down/up; 'chaos' partner: wrong credit letters, "
+        "timing + source back-pressure + lrty_pending timing + link down/up (a quarter of the cases at random moments - the "
+        "monitor stops there unless nothing is in flight -, a quarter at quiet moments: the queue is stopped until every header is "
+        "answered, then enable falls for 1-12 cycles and the partner advertises again; the monitor restarts its bookkeeping and "
+        "demands the whole property of every further epoch, in particular the retransmission after an LBAD that follows a "
+        "re-entry with a number of retired headers that is not a multiple of 4); 'chaos' partner: wrong credit letters, "
         "wrong / duplicate / early LGOODs, unsolicited LBAD/LRTY/LGO_U, corrupted command words; three credit time-outs; "
         "extra column env_r (Lean driver only) = the environment hypothesis EnvStepR of the retransmission theorem, "
         "expected to be 1 in every link-up cycle until the monitor sees the partner leave the environment")
@@ -31,8 +35,9 @@ ASSUMPTIONS = [
     "tx_word_carries_header); the packet that was already in flight at the LBAD is set aside, as in the monitor",
     "completion (lbad_round_completes): no further LBAD and at least 20*m+20 cycles with source.ready and without "
     "lrty_pending, spread arbitrarily over the history",
-    "link re-entry of the transmitter is outside the property (dispatch FSM / raw transmitter are not reset by ~enable; "
-    "the monitor stops at link-down)",
+    "link re-entry of the transmitter with a header in flight is outside the property (dispatch FSM / raw transmitter are not "
+    "reset by ~enable; the monitor stops at such a link-down, and goes on into the next epoch after a link-down at which "
+    "nothing was in flight)",
 ]
 PARTIAL = ""
 
@@ -89,7 +94,8 @@ class Partner:
         self.qv = Pattern(rng, [[100], [100, 50, 0], [30, 5], [100, 0, 0]][(k // 4) % 4])
         self.p_bad = desc.get("p_bad", 10)
         self.ack_delay = [(0, 3), (0, 30), (20, 90), (0, 8)][(k // 16) % 4]
-        self.updown = desc.get("updown", 0)
+        self.updown = desc.get("updown", 0)      # 0 link stays up | 1 down at random moments | 2 down at quiet moments
+        self.drain = 0                           # cycles spent waiting for a quiet moment to take the link down
         self.sinkq = []          # words for the DUT's sink: (valid, data, ctrl)
         self.events = []         # (due cycle, kind, arg) partner actions scheduled
         self.rx_words = None     # header being received from the DUT's source
@@ -170,6 +176,13 @@ class Partner:
         else:
             self.rx_words = None
 
+    def quiet_now(self, prev_out):
+        """nothing in flight in either direction: every header sent was answered, the answers were delivered, the
+        transmitter shows nothing to send and is not sending"""
+        return (prev_out is not None and prev_out[O_PTS] == 0 and not prev_out[O_SV] and not self.sinkq
+                and self.rx_words is None and not self.ignoring and self.lrty_left == 0
+                and not any(e[1] in ("lgood", "lbad", "lrty-seen", "advert") for e in self.events))
+
     def drive(self, t, prev_out):
         r = self.rng
         if prev_out is not None:
@@ -186,10 +199,16 @@ class Partner:
         if self.en_left < 0:
             if self.en == 0:
                 self.en = 1
-                self.en_left = r.choice([200, 400, 800, 5000]) if self.updown else 10 ** 9
+                self.en_left = (r.choice([150, 300, 500]) if self.updown == 2 else
+                                r.choice([200, 400, 800, 5000]) if self.updown else 10 ** 9)
+                self.drain = 0
                 self.state_reset()
                 self.events.append((t + r.range(1, 10), "advert", 0))
+            elif self.updown == 2 and self.drain < 300 and not self.quiet_now(prev_out):
+                self.drain += 1          # the queue stops offering headers (below) until everything is answered
             else:
+                if self.updown == 2:
+                    self.tags.add("link-down:at-quiet-moment" if self.drain < 300 else "link-down:drain-gave-up")
                 self.en = 0
                 self.en_left = r.range(1, 12)
                 self.state_reset()
@@ -229,7 +248,10 @@ class Partner:
             lr = 1
         else:
             lr = 1 if (self.mode == "chaos" and r.chance(1)) else 0
-        row = [v, d, c, self.rdy.next(), self.en, self.qv.next()] + self.qhdr + [lr]
+        qv = self.qv.next()
+        if self.updown == 2 and self.en and self.en_left < 0:
+            qv = 0                       # draining before a link-down at a quiet moment
+        row = [v, d, c, self.rdy.next(), self.en, qv] + self.qhdr + [lr]
         self.prev_in = row
         return row
 
@@ -284,6 +306,7 @@ class Monitor:
         retry = None             # dict(list=[indices], pos, since) after an LBAD
         first_tx = 0             # index of the next header that has never been transmitted
         last_lbad = -1           # cycle of the last LBAD (retry_required)
+        down_retired = None      # headers retired in the previous epoch (None: this is the first one)
         for t in range(n):
             i, o = irows[t], orows[t]
             # -- effects of the link command whose word was on the sink in the previous cycle
@@ -363,7 +386,8 @@ class Monitor:
                 self.fail(t, "bringup", "bringup_complete=%d, expected %d" % (o[O_BR], bring))
             if o[O_QR] and i[I_QV]:
                 k = len(accepted)
-                accepted.append({"w": (i[I_Q0], i[I_Q1], i[I_Q2]), "f": fields(i[I_Q3]), "k": k, "sent": 0, "ack_ok": 0})
+                accepted.append({"w": (i[I_Q0], i[I_Q1], i[I_Q2]), "f": fields(i[I_Q3]), "k": k, "sent": 0, "ack_ok": 0,
+                                 "t": t})
                 self.tags.add("accept")
             # -- transmitted headers
             if o[O_SV] and i[I_RDY]:
@@ -399,6 +423,9 @@ class Monitor:
                 retry = {"list": lst, "pos": 0, "since": t} if lst else None
                 if lst:
                     self.tags.add("retry-round:%d" % len(lst))
+                    if down_retired is not None:
+                        self.tags.add("retry-round-after-reentry:%s" % ("retired-before-not-multiple-of-4" if down_retired % 4
+                                                                        else "retired-before-multiple-of-4"))
             for p in pending:
                 if p[0] == "bring":
                     bring = True
@@ -406,14 +433,26 @@ class Monitor:
                     retired += 1
             pending = []
             if not i[I_EN] and t and irows[t - 1][I_EN]:
-                # link re-entry of the transmitter is outside C39 (its FSM / raw transmitter are not reset by
-                # ~enable: a header in flight is completed after re-entry and its `done` is taken for the next one)
-                self.tags.add("link-down:monitor-stops")
-                yield t
-                return
+                # link re-entry of the transmitter with something in flight is outside C39 (its FSM / raw transmitter
+                # are not reset by ~enable: a header in flight is completed after re-entry and its `done` is taken for
+                # the next one).  A link that goes down at a quiet moment - every header taken before this cycle has
+                # been put on the wire completely, no retransmission round open, nothing shown as to be sent, source
+                # silent in this cycle and the one before - starts afresh: the partner advertises again, and the
+                # property is demanded of the new epoch like of the first one.
+                quiet = (cur is None and retry is None and o[O_PTS] == 0 and not o[O_SV] and not orows[t - 1][O_SV]
+                         and first_tx >= sum(1 for a in accepted if a["t"] < t)
+                         and all(a["sent"] for a in accepted if a["t"] < t))
+                if not quiet:
+                    self.tags.add("link-down:monitor-stops")
+                    yield t
+                    return
+                self.tags.add("link-down:quiet-monitor-continues")
+                self.tags.add("link-down:quiet-with-%d-retired-mod-4" % (retired % 4))
+                down_retired = retired
             if not i[I_EN]:
                 bring, adv, credits_rx, next_letter, accepted, retired, retry, first_tx = False, None, 0, 0, [], 0, None, 0
                 cur_start = None
+                cur = None
                 pending = []
         return
 
@@ -462,7 +501,9 @@ def gen_cases(tier, rng):
     for k in range(n):
         out.append({"mode": "chaos" if k % 6 == 5 else "legal", "k": rng.below(64), "seed": rng.u64(),
                     "cycles": 1600 if tier == "quick" else 3000, "timeout": [201, 41, 625001][k % 3],
-                    "p_bad": rng.choice([0, 5, 15, 35]), "updown": 1 if k % 4 == 3 else 0})
+                    "p_bad": rng.choice([0, 5, 15, 35]), "updown": 1 if k % 4 == 3 else 2 if k % 4 == 1 else 0})
+        if out[-1]["updown"] == 2 and out[-1]["p_bad"] < 15:
+            out[-1]["p_bad"] = 25          # re-entry cases are there for the LBAD after the re-entry
     return out
 
 
@@ -488,6 +529,10 @@ def run_case(desc):
     # env_r (computed by the Lean driver only): the environment hypothesis EnvStepR of the retransmission theorem must
     # hold in every cycle in which the link is up and the monitor still considers the partner within the environment
     stop = len(lean_rows) if mon.stop_t is None else mon.stop_t
+    for t in range(1, len(lean_rows)):       # env_r is compared in the first link-up epoch only (as before)
+        if lean_rows[t - 1][I_EN] and not lean_rows[t][I_EN]:
+            stop = min(stop, t)
+            break
     orows = [list(r) + [1 if (t < stop and lean_rows[t][I_EN]) else None] for t, r in enumerate(orows)]
     tags = sorted(mon.tags | ptags | {"mode:" + desc.get("mode", "replay"), "timeout=%d" % timeout})
     return Case([timeout, 1 << timeout.bit_length()], lean_rows, [list(r) for r in orows], mon.fails, tags, desc, IN_NAMES, OUT_NAMES)
